@@ -256,19 +256,40 @@ impl<'a, S: Scenario> Shared<'a, S> {
     fn execute(&self, prefix: &[u16], devs: u32) -> Option<(Vec<u16>, Vec<u16>)> {
         let mut ctx = Ctx::new(prefix, false);
         let out = self.scenario.run(&mut ctx);
+        // A run that does not follow its stored prefix means the scenario is not a function of the schedule
+        // (nondeterminism the harness does not own). That is a machinery error unless some execution
+        // witnesses a violation: a violation observed in a real execution stands on its own. So: note the
+        // divergence, skip this subtree, and decide at the end.
         if let Some(d) = &ctx.divergence {
-            *self.machinery.lock().unwrap() = Some(format!("divergence while replaying prefix {:?}: {}", prefix, d));
-            self.stop.store(true, Ordering::SeqCst);
+            let mut m = self.machinery.lock().unwrap();
+            if m.is_none() {
+                *m = Some(format!("divergence while replaying prefix {:?}: {}", trim_choices(prefix), d));
+            }
+            if let Some(v) = out.violation {
+                self.found.lock().unwrap().entry(v.signature.clone()).or_insert(FoundViolation {
+                    scenario: self.scenario.name(),
+                    scenario_index: self.scenario_index,
+                    choices: trim_choices(&ctx.choices),
+                    deviations: devs,
+                    violation: v,
+                });
+            }
             return None;
         }
         if ctx.choices.len() < prefix.len() {
-            *self.machinery.lock().unwrap() = Some(format!(
-                "divergence: run consumed {} choices, prefix has {} ({:?})",
-                ctx.choices.len(),
-                prefix.len(),
-                prefix
-            ));
-            self.stop.store(true, Ordering::SeqCst);
+            let mut m = self.machinery.lock().unwrap();
+            if m.is_none() {
+                *m = Some(format!("divergence: run consumed {} choices, prefix has {} ({:?})", ctx.choices.len(), prefix.len(), trim_choices(prefix)));
+            }
+            if let Some(v) = out.violation {
+                self.found.lock().unwrap().entry(v.signature.clone()).or_insert(FoundViolation {
+                    scenario: self.scenario.name(),
+                    scenario_index: self.scenario_index,
+                    choices: trim_choices(&ctx.choices),
+                    deviations: devs,
+                    violation: v,
+                });
+            }
             return None;
         }
         let n = self.executions.fetch_add(1, Ordering::Relaxed);
@@ -280,13 +301,36 @@ impl<'a, S: Scenario> Shared<'a, S> {
             let mut ctx2 = Ctx::new(prefix, false);
             let out2 = self.scenario.run(&mut ctx2);
             if hash_run(&ctx, &out) != hash_run(&ctx2, &out2) {
-                *self.machinery.lock().unwrap() = Some(format!(
-                    "nondeterminism: schedule {:?} of scenario {} gave two different observation logs",
-                    prefix,
-                    self.scenario.name()
-                ));
-                self.stop.store(true, Ordering::SeqCst);
-                return None;
+                // A violation witnessed in a real execution is a violation whatever the other execution of the
+                // same schedule observed (e.g. a defect whose effect depends on a hash map's iteration order
+                // inside the library). Without a violation the divergence is a machinery error.
+                let witnessed = out.violation.clone().or(out2.violation.clone());
+                match witnessed {
+                    Some(mut v) => {
+                        v.message = format!(
+                            "{} [note: re-executing this schedule gave a different observation log; a source of nondeterminism inside the library influences the outcome, so a replay may need several attempts]",
+                            v.message
+                        );
+                        let mut found = self.found.lock().unwrap();
+                        found.entry(v.signature.clone()).or_insert(FoundViolation {
+                            scenario: self.scenario.name(),
+                            scenario_index: self.scenario_index,
+                            choices: trim_choices(&ctx.choices),
+                            deviations: devs,
+                            violation: v,
+                        });
+                        return Some((ctx.choices, ctx.arity));
+                    }
+                    None => {
+                        *self.machinery.lock().unwrap() = Some(format!(
+                            "nondeterminism: schedule {:?} of scenario {} gave two different observation logs",
+                            prefix,
+                            self.scenario.name()
+                        ));
+                        self.stop.store(true, Ordering::SeqCst);
+                        return None;
+                    }
+                }
             }
             self.det_checked.fetch_add(1, Ordering::Relaxed);
         }
@@ -453,7 +497,14 @@ pub fn explore_schedules<S: Scenario>(
         }
     });
     if let Some(m) = shared.machinery.lock().unwrap().take() {
-        return Err(MachineryError(m));
+        let mut found = shared.found.lock().unwrap();
+        if found.is_empty() {
+            return Err(MachineryError(m));
+        }
+        // violations were witnessed in real executions: report them, and say that the run was not reproducible
+        for f in found.values_mut() {
+            f.violation.message = format!("{} [note: the exploration also met nondeterminism the harness does not own: {}]", f.violation.message, m);
+        }
     }
     let stats = Stats {
         executions: shared.executions.load(Ordering::SeqCst),
